@@ -121,6 +121,11 @@ frecipe('L2NormSquared', ALLS + ('pspace',), 'pl', [DEF + 'L2NormSquared'],
         value=lambda ctx, sp, x: v_l2sq(sp, x))(lambda ctx, sp: S.L2NormSquared(sp))
 frecipe('L2Norm', ALLS, 'sqrt', [DEF + 'L2Norm', DEF + 'LpNorm'])(lambda ctx, sp: S.L2Norm(sp))
 frecipe('LinfNorm', ('rn', 'discr'), 'pl', [DEF + 'LpNorm'])(lambda ctx, sp: S.LpNorm(sp, float('inf')))
+for _p in (3, 4, 6):
+    frecipe('LpNorm/p=%d' % _p, ('rn', 'discr'), 'trans', [DEF + 'LpNorm'], note='values only (pow primitive)')(
+        lambda ctx, sp, _p=_p: S.LpNorm(sp, _p))
+    frecipe('IndicatorLpUnitBall/%d' % _p, ('rn',), 'ind', [DEF + 'IndicatorLpUnitBall'],
+            note='values only (pow primitive)')(lambda ctx, sp, _p=_p: S.IndicatorLpUnitBall(sp, _p))
 frecipe('GroupL1Norm', ('pspace', 'dpspace'), 'sqrt', [DEF + 'GroupL1Norm'])(lambda ctx, sp: S.GroupL1Norm(sp))
 frecipe('GroupL1Norm/p=1', ('pspace',), 'pl', [DEF + 'GroupL1Norm'])(lambda ctx, sp: S.GroupL1Norm(sp, exponent=1))
 frecipe('IndicatorGroupL1UnitBall', ('pspace',), 'ind', [DEF + 'IndicatorGroupL1UnitBall'])(
